@@ -67,6 +67,10 @@ func (w *World) genPauseFlag() []byte {
 	if w.Cfg.Thin || w.Cfg.NoPauseGen || !verif.Bool("pause.present") {
 		return nil
 	}
+	if w.Cfg.PauseBinary {
+		// a present flag is the paused flag ({1,0}); "present but not paused" behaves like absent
+		return []byte{1, 0}
+	}
 	return verif.Bytes("pause.flag", 2)
 }
 
